@@ -458,6 +458,23 @@ Finished(r, deps) ==
   /\ UNCHANGED <<prog, ext, chk, epoch, target, cancelled, draining, ran, cyc,
                  hasdb, db, alive, runs, quiet>>
 
+(* cancelRemainingTasks(), last part (since the repair of S37): a rule that completed in this build but has a recorded *)
+(* - in practice: discovered - dependency that was not brought up to date before the build stopped was computed from    *)
+(* state the engine has no record of; its result is forgotten (and the empty record written to the database).           *)
+Stranded(r) == Done(r) /\ \E i \in 1..Len(mem[r].deps) : ~Done(mem[r].deps[i].k)
+Forget(r) ==
+  /\ Running /\ focus = NoFocus /\ draining
+  /\ Stranded(r)
+  /\ mem' = [mem EXCEPT ![r] = NoResult]
+  /\ txn' = IF hasdb THEN [txn EXCEPT !.rows[r] = NoResult] ELSE txn
+  /\ last' = [a |-> "Forget", k |-> r]
+  (* (st[r] stays "done": which rules are stranded is decided before anything is forgotten, so forgetting r does not *)
+  (* strand the rules that depend on r - they re-run anyway once r has been recomputed)                              *)
+  /\ UNCHANGED <<prog, ext, st, chk, task, epoch, target, cancelled, draining, focus, ran, cyc, intr,
+                 hasdb, db, alive, runs, quiet>>
+(* ... what is left of it when the build returns (an engine without a database forgets silently) *)
+Forgotten(m) == [r \in Keys |-> IF Stranded(r) THEN NoResult ELSE m[r]]
+
 (* BuildEngine::cancelBuild().  sync: delivered from the engine thread itself   *)
 (* or known to have returned; otherwise the call is merely in flight.           *)
 Cancel(sync) ==
@@ -508,7 +525,7 @@ BuildReturn(v) ==
   /\ \A k \in Keys : st[k] # "computing"
   /\ \/ /\ ~cyc /\ ~draining /\ BuildComplete             \* success
         /\ v = mem[target].value
-        /\ UNCHANGED <<intr, task, st>>
+        /\ UNCHANGED <<intr, task, st, mem>>
         /\ quiet' = [on |-> TRUE, k |-> target]
         /\ last' = [a |-> "Return", ok |-> TRUE, v |-> v, k |-> target, ran |-> ran, wasquiet |-> quiet.on]
      \/ /\ draining \/ cancelled # "no"                     \* failure
@@ -517,14 +534,16 @@ BuildReturn(v) ==
         /\ intr' = intr \cup {k \in Keys : InFlight(k)}
         /\ task' = [k \in Keys |-> NoTask]
         /\ st' = [k \in Keys |-> IF st[k] = "done" THEN "done" ELSE "idle"]
+        /\ mem' = Forgotten(mem)
         /\ quiet' = NotQuiet
         /\ last' = [a |-> "Return", ok |-> FALSE, v |-> v, k |-> target, ran |-> ran, wasquiet |-> FALSE]
   /\ target' = None /\ draining' = FALSE /\ focus' = NoFocus
   /\ IF hasdb /\ txn.open
-     THEN /\ db' = [ver |-> txn.ver, epoch |-> txn.epoch, rows |-> txn.rows]     \* commit
+     THEN /\ db' = [ver |-> txn.ver, epoch |-> txn.epoch,
+                     rows |-> IF ~cyc /\ ~draining /\ BuildComplete THEN txn.rows ELSE Forgotten(txn.rows)]     \* commit
           /\ txn' = NoTxn
      ELSE UNCHANGED <<db, txn>>
-  /\ UNCHANGED <<prog, ext, mem, chk, epoch, cancelled, ran, cyc, hasdb, alive, runs>>
+  /\ UNCHANGED <<prog, ext, chk, epoch, cancelled, ran, cyc, hasdb, alive, runs>>
 
 -----------------------------------------------------------------------------
 (* Properties, as state predicates over the ghost record of the last action *)
